@@ -652,6 +652,12 @@ def composite_specs(rng, n_random):
         ("dictof", [(I, ("all", I))]), ("dictof", [(("inst", ("dict",)), I)]),
         ("and", ("inst", ("dict",)), ("haskey", "foo")), ("or", ("haskey", "a"), ("none",)),
     ]
+    # operands related by implication (what implies() knows: ge/gt pairs, eq against ge/gt/in/ne, in within in, real-subset within
+    # subset), weaker first and stronger first: a filter that is skipped "because the other operand implies it" shows here
+    related = [(("ge", 2), ("ge", 50)), (("gt", 7), ("ge", -2)), (("ge", 1), ("eq", 3)), (("in", [1, 2, 3, 4, 5]), ("in", [1, 2])), (("in", [2, 3, 4]), ("eq", 2)),
+               (("ne", 3), ("eq", 2)), (("subset", [1, 2, 3]), ("rsubset", [1, 2, 3])), (("ge", 2.0), ("gt", 2.0)), (("le", 5), ("le", -5)), (("notin", [2, 3]), ("in", [7, 8]))]
+    for weak, strong in related:
+        out += [("and", weak, strong), ("and", strong, weak), ("or", weak, strong), ("or", strong, weak)]
     unary = ["all", "any", "setof"]
     for _ in range(n_random):
         c = rng.random()
@@ -1064,6 +1070,36 @@ def safety_check(pid, mode, tier):
         "correspondence_cases_with_uniform_requests": sum(1 for c in edge_cases if any(r[0] == "uniform" for r in c.log)),
         "uniform_requests_ending_at_the_largest_double": sum(1 for c in edge_cases for r in c.log if r[0] == "uniform" and isinstance(r[1], int) and isinstance(r[2], int) and fk(sys.float_info.max) in (abs(r[1]), abs(r[2]))),
     }
+    # ---- datetime bounds at the edge of the representable range (datetime.min / datetime.max and a microsecond inside, naive and
+    # aware): today most of these requests fail with OverflowError -- that is "no value produced" and is not judged here (C11 speaks of
+    # int and float bounds only); whatever IS produced is judged
+    import datetime as _dtm
+
+    dt_edge = [_dtm.datetime.max, _dtm.datetime.min, _dtm.datetime.max - _dtm.timedelta(microseconds=1), _dtm.datetime.min + _dtm.timedelta(microseconds=1),
+               _dtm.datetime.max.replace(tzinfo=_dtm.timezone.utc), _dtm.datetime.min.replace(tzinfo=_dtm.timezone.utc), _dtm.datetime(9999, 12, 30, 12, 0), _dtm.datetime(1, 1, 2, 12, 0)]
+    dt_judged, dt_raised = 0, 0
+    for h in ("ge", "gt", "le", "lt"):
+        for b in dt_edge:
+            for wrap in (lambda q: q, lambda q: P.all_p(q), lambda q: is_tuple_of_p(q)) if mode == "T" else (lambda q: q,):
+                try:
+                    p_ = wrap({"ge": P.ge_p, "gt": P.gt_p, "le": P.le_p, "lt": P.lt_p}[h](b))
+                    items, st, _, _ = pull_impl(mode, p_, 8, EVENTS, seed=chk.seed * 1000 + 53)
+                except HarnessError:
+                    raise
+                except Exception:  # noqa: BLE001
+                    dt_raised += 1
+                    continue
+                if st.startswith("error"):
+                    dt_raised += 1
+                for i, v in enumerate(items):
+                    r = call(p_, v)
+                    dt_judged += 1
+                    if r is not want:
+                        chk.add_failure({"mode": mode, "spec": f"{h}_p({b!r})", "predicate": repr(p_), "seed": chk.seed * 1000 + 53, "position": i},
+                                        {"what": f"generate_{'true' if want else 'false'} yielded a value on which the predicate does not return {want} (datetime bound at the edge of the representable range)",
+                                         "value": repr(v)[:300], "predicate_returned": r if isinstance(r, str) else repr(r)}, None)
+                        break
+    chk.extra["edge_of_datetime_range"] = {"values_judged": dt_judged, "requests_that_failed_without_a_value": dt_raised}
     # ---- regex_p (exrex is third-party and not modelled): judged on the real code only -- every generated string matches, for
     # plain, anchored, alternation / class / repetition patterns and for case-insensitive ones with letters whose full upper-casing
     # is not their case-folded form
